@@ -716,6 +716,9 @@ def invalid_variant(rng, s, doc):
     except Exception:  # noqa
         return None
     rng.shuffle(cat)
+    if rng.random() < 0.35:
+        # rules that walk fragments (cycles, spreads, usage through fragments) first: they are the ones that keep state
+        cat.sort(key=lambda c_: 0 if "fragment" in c_[0] else 1)
     for rule, site, fn, textfn in cat[:6]:
         if known_mechanism(rule, site):
             continue
